@@ -1,11 +1,58 @@
 """Property id -> check entry point."""
+import importlib
 from . import common as C
 from . import l1check
 
+ALL_REQ = [3, 8, 11, 14, 16, 18, 20, 22, 24, 27, 30, 32, 34, 36, 38, 39, 40, 42, 101, 201, 301, 303, 305]
+NOFLAGS = "flags empty (suppression is C17's subject)"
+INTERN = "strings and blobs the server only tests for emptiness/equality are interned to numbers by the harness (injective)"
+
 L1 = {
-    "C14": dict(profile="C14", n_quick=300, n_thorough=6000, len_thorough=200, own_kinds=[16],
+    "C01": dict(profile="C01", n_quick=240, n_thorough=8000, len_thorough=250, own_kinds=ALL_REQ,
+                rule="online-generated histories (profile C01: up to 6 connections, 3 sessions, all 8 module subsets round-robin, hook snapshot after ~30% of the ops and at the end); every member's replicated view is recomputed from its own message stream and compared with the server state at every snapshot; non-trivial = contains an accepted and a refused request; distinct by op list",
+                assumptions=[NOFLAGS, INTERN, "a participant's knowledge of a component type is compared only while it is synced (DESIGN §4.2)"]),
+    "C02": dict(profile="C02", n_quick=240, n_thorough=8000, len_thorough=250, own_kinds=[3, 8, 11, 14, 16, 101, 201],
+                rule="online-generated histories (profile C02: sessions of 3-6 members, joins / switches / departures, entity add / delete, pose updates with frame ticks, untargeted custom messages, actions, assets, foreign and dead ids); non-trivial = contains an accepted and a refused relaying request; distinct by op list",
+                assumptions=[NOFLAGS, INTERN]),
+    "C03": dict(profile="C03", n_quick=240, n_thorough=8000, len_thorough=250, own_kinds=ALL_REQ,
+                rule="online-generated histories (profile C03: 3 concurrent sessions whose participant / entity / type ids coincide, connections that never join, switch back and forth, name ids of other sessions, end-and-recreate cycles that recycle session ids; hook snapshot after ~60% of the ops); non-trivial = contains an accepted and a refused request; distinct by op list",
+                assumptions=[INTERN, "noninterference is proved on the model (C03_local_respect) and carried to the code by the correspondence; on the code itself the check is: no delivery leaves the actor's sessions, and a session nobody in it touched is bit-for-bit unchanged between consecutive snapshots"]),
+    "C04": dict(profile="C04", n_quick=240, n_thorough=8000, len_thorough=250, own_kinds=ALL_REQ,
+                rule="online-generated histories (profile C04: every request kind incl. undecodable bodies and unknown type numbers, zero / unknown / foreign / dead / huge ids, empty strings, missing sub-messages, joined and unjoined senders; snapshot after ~45% of the ops); non-trivial = contains an accepted and a refused request; distinct by op list",
+                assumptions=[INTERN, "request ids are unique per history so that answers are attributable", "TOO_BUSY vs accepted for a receipt is not predicted (queue length is C19's subject)"]),
+    "C05": dict(profile="C05", n_quick=240, n_thorough=8000, len_thorough=250, own_kinds=[11, 14, 201],
+                rule="online-generated histories (profile C05: every (requester, entity) pair class: own, foreign, orphaned persistent entity of a departed owner, joiner after the owner left, unknown, zero and huge ids); non-trivial = contains an accepted and a refused owner-restricted request; distinct by op list",
+                assumptions=[INTERN]),
+    "C06": dict(profile="C06", n_quick=240, n_thorough=8000, len_thorough=250, own_kinds=[3, 8],
+                rule="online-generated histories (profile C06: participants owning 0-5 entities with random persist flags, components of several types, actions, assets, subscriptions; departures by disconnect, handler error, undecodable frame, switching join); non-trivial = contains a departure that removes entities and one that keeps a persistent entity... counted as accepted+refused of the join / entity-add kinds; distinct by op list",
+                assumptions=[INTERN, "the wire-level causes of a connection ending (idle timeout, TCP reset, ...) funnel into the same HandleDisconnect; that funnel is C08's subject"]),
+    "C07": dict(profile="C07", n_quick=240, n_thorough=8000, len_thorough=300, own_kinds=[3],
+                rule="online-generated histories (profile C07: long create / join / switch / end cycles over up to 4 sessions with session-id reuse, joins of live, dead, guessed and junk ids; hook snapshot of registry keys, gauge and frame-handler counts after ~40% of the ops); non-trivial = contains an accepted and a refused join; distinct by op list",
+                assumptions=["sequential histories; the lock-granularity interleavings of concurrent joins / departures are not decided by this check (see level_note)"]),
+    "C10": dict(profile="C10", n_quick=240, n_thorough=8000, len_thorough=400, own_kinds=[3, 8, 18, 201],
+                rule="online-generated histories (profile C10: hundreds of allocations of participant, entity, type and asset ids with releases, session create / end cycles building reusable id pools); non-trivial = contains an accepted and a refused allocating request; distinct by op list",
+                assumptions=["fewer than 2^32-1 allocations per generator (uint32 wrap is in the model and excluded by hypothesis in the theorems)", INTERN]),
+    "C11": dict(profile="C11", n_quick=240, n_thorough=8000, len_thorough=300, own_kinds=[14],
+                rule="online-generated histories (profile C11: pose updates carrying a sequence number, 0 / 1 / many updates per frame, ticks with nothing pending, updates pending while the owner deletes the entity, leaves or switches session, other members joining meanwhile; requests are queued and consumed out of lock-step); non-trivial = contains a relayed and a dropped pose update; distinct by op list",
+                assumptions=[NOFLAGS, "'within a few frames' = after one frame tick following the last dispatch, once the flushed message has been consumed (DESIGN §4.7)"]),
+    "C12": dict(profile="C12", n_quick=240, n_thorough=8000, len_thorough=250, own_kinds=[18, 24, 27, 32],
+                rule="online-generated histories (profile C12: type registrations, component adds / updates / deletes / lists, entity deletions and departures, ids that exist, never existed or no longer exist); non-trivial = contains an accepted and a refused component request; distinct by op list",
+                assumptions=[INTERN]),
+    "C13": dict(profile="C13", n_quick=240, n_thorough=8000, len_thorough=250, own_kinds=[24, 27, 34],
+                rule="online-generated histories (profile C13: several component types, every member subscribing / unsubscribing / leaving / re-joining, component changes by subscribers and non-subscribers); non-trivial = contains an accepted and a refused component or subscription request; distinct by op list",
+                assumptions=[INTERN, "exactly the property's clauses: what non-subscribers receive for adds / deletes while somebody is subscribed is neither required nor forbidden"]),
+    "C14": dict(profile="C14", n_quick=160, n_thorough=4000, len_thorough=150, own_kinds=[16],
                 rule="online-generated histories (profile C14: bodies of length 0/1/10239/10240/10241/random, recipient lists over members, non-members, duplicates, the sender, 0); a history is non-trivial when it contains a delivered and a refused custom message; distinct by op list",
-                assumptions=["protobuf marshalling is injective on the body bytes", "flags empty (suppression is C17's subject)"]),
+                assumptions=["protobuf marshalling is injective on the body bytes", NOFLAGS]),
+    "C16": dict(profile="C16", n_quick=240, n_thorough=8000, len_thorough=250, own_kinds=[101, 201],
+                rule="online-generated histories (profile C16: actions with equal, decreasing, far-future, zero and negative timestamps, several names per entity, assets re-added, requests from non-owners, interleaved entity deletions and departures, persistent orphans, every module subset); non-trivial = contains an accepted and a refused action / asset request; distinct by op list",
+                assumptions=[INTERN, "|timestamp seconds| <= 2^55 (beyond that time.Unix wraps)"]),
+    "C17": dict(profile="C17", n_quick=60, n_thorough=1024, len_thorough=120, own_kinds=ALL_REQ, mode="flags",
+                rule="online-generated flag-free histories (profile C17), each replayed under sampled flag sets (quick: 4 per history cycling through the 10 singletons, the full set, unknown names and random subsets; thorough: all 1024 subsets, 16 per history); each flagged run is compared with the model and, pairwise, with its flag-free twin filtered by the set flags; non-trivial = contains an accepted and a refused request; distinct by op list",
+                assumptions=["a pair is compared only up to the first point where the two runs recycle a different session id (Go map order)"]),
+    "C18": dict(profile="C18", n_quick=200, n_thorough=4000, len_thorough=300, own_kinds=[42, 39],
+                rule="online-generated histories (profile C18: iteration counts 0..60 and 2^32-1, empty wallets, ping answers in order, twice, unknown ids, old ids after completion, restarts mid-measurement, session switches); the final round is delayed 2 ms so that 'last' is decidable from outside; non-trivial = contains an accepted and a refused latency request or ping answer; distinct by op list",
+                assumptions=["clock readings are monotone and a measured round trip is >= 1 us (the harness sleeps 20 us)", "Keccak-256 and secp256k1 recovery are go-ethereum's (the harness recovers the signer independently)", "protobuf marshalling of LatencyData"]),
 }
 
 def l1_entry(pid):
@@ -15,11 +62,19 @@ def l1_entry(pid):
         return l1check.run(pid, tier, L1[pid])
     return f
 
+def mod_entry(modname):
+    def f(tier, replay):
+        m = importlib.import_module("checks." + modname)
+        return m.run(tier, replay)
+    return f
+
 CHECKS = {pid: l1_entry(pid) for pid in L1}
+for _pid, _mod in (("C08", "c08check"), ("C09", "c09check"), ("C15", "c15check"), ("C19", "c19check"), ("C20", "c20check")):
+    CHECKS[_pid] = mod_entry(_mod)
 
 def setup():
     """MANIFEST.setup_cmd: build everything once, offline"""
-    with C.Lock():
+    with C.Lock("build"):
         bad = C.grep_forbidden()
         if bad:
             print("forbidden vernacular:\n" + "\n".join(bad)); return 2
